@@ -194,7 +194,7 @@ type c05pair struct {
 var c05features = []string{
 	"plain", "plain", "plain", "ptr-depth-plus", "ptr-depth-minus", "byte-uint8", "rune-int32", "any-iface", "alias-named", "alias-basic", "int-int64",
 	"slice-variadic", "chan-dir", "result-count", "param-count", "method-renamed", "method-dropped", "recv-pointer", "embed-value", "embed-ptr", "embed-iface",
-	"iface-embeds-iface", "T-is-interface", "T-nonstruct", "inner-map-elem", "inner-func-result", "array-len", "named-other-pkg", "param-order", "same-pkgname-composite", "same-pkgname-named",
+	"iface-embeds-iface", "T-is-interface", "T-nonstruct", "inner-map-elem", "inner-func-result", "array-len", "named-other-pkg", "param-order", "same-pkgname-composite", "same-pkgname-named", "sealed-promoted-from-embedded-base", "sealed-own-unexported-method",
 }
 
 func genPair(r *base.Rand, idx int, feature string) *c05pair {
@@ -202,6 +202,9 @@ func genPair(r *base.Rand, idx int, feature string) *c05pair {
 	p.ifacePkg = base.Pick(r, []string{"ifc", "ifc", "impl", "alt"})
 	if feature != "plain" && p.ifacePkg == "alt" {
 		p.ifacePkg = "ifc" // at most one hostile feature per pair: the package whose name differs from its directory is a feature of its own
+	}
+	if strings.HasPrefix(feature, "sealed-") {
+		p.ifacePkg = "ifc"
 	}
 	allowImpl := p.ifacePkg == "impl"
 	nm := 1 + r.Intn(3)
@@ -253,9 +256,24 @@ func genPair(r *base.Rand, idx int, feature string) *c05pair {
 		m0.variadic = false
 		m0.params = []*tx{basic("int"), basic("string")}
 	}
+	if strings.HasPrefix(feature, "sealed-") {
+		// a "sealed" interface of package ifc: it has an unexported method, which only ifc can provide
+		p.ifacePkg = "ifc"
+		for _, m := range p.imethods {
+			for _, x := range append(append([]*tx{}, m.params...), m.res...) {
+				_ = x
+			}
+		}
+		p.imethods = append(p.imethods, &c05method{name: "sealed"})
+	}
 	for _, m := range p.imethods {
 		p.tmethods = append(p.tmethods, m.clone())
 		p.recvPtr = append(p.recvPtr, false)
+	}
+	if feature == "sealed-promoted-from-embedded-base" {
+		p.tmethods = p.tmethods[:len(p.tmethods)-1] // sealed() comes from the embedded ifc.SealBase
+		p.recvPtr = p.recvPtr[:len(p.recvPtr)-1]
+		p.viaEmbed = "sealbase"
 	}
 	t0 := p.tmethods[0]
 	switch feature {
@@ -383,7 +401,7 @@ func genModule(r *base.Rand, nPairs int, startFeature int) *c05module {
 	}
 	qualIfc := map[string]string{"alt": "altname", "impl": "impl"}
 	var ifc, alt strings.Builder
-	ifc.WriteString("package ifc\n\ntype Item struct{ N int }\n\ntype ID int\n\ntype AliasItem = Item\n\ntype AliasInt = int\n\n")
+	ifc.WriteString("package ifc\n\ntype Item struct{ N int }\n\ntype ID int\n\ntype AliasItem = Item\n\ntype AliasInt = int\n\n// SealBase lets other packages implement sealed interfaces by embedding it.\ntype SealBase struct{}\n\nfunc (SealBase) sealed() {}\n\n")
 	alt.WriteString("package altname\n\nimport \"m5/ifc\"\n\nvar _ ifc.ID\n\ntype Item struct{ Other string }\n\n")
 	implFiles := []*strings.Builder{{}, {}, {}, {}}
 	implFiles[0].WriteString("package impl\n\nimport (\n\t\"m5/ifc\"\n\tifc2 \"m5/v2/ifc\"\n\t\"m5/yy\"\n)\n\nvar _ ifc.ID\nvar _ altname.Item\nvar _ ifc2.Item\n\ntype Loc struct{}\n\ntype LocAlias = Loc\n\n")
@@ -494,6 +512,8 @@ func genModule(r *base.Rand, nPairs int, startFeature int) *c05module {
 				fmt.Fprintf(tw, "type %s struct{ E%d }\n\ntype E%d struct{}\n\n", p.tname, p.idx, p.idx)
 			case "ptr":
 				fmt.Fprintf(tw, "type %s struct{ *E%d }\n\ntype E%d struct{}\n\n", p.tname, p.idx, p.idx)
+			case "sealbase":
+				fmt.Fprintf(tw, "type %s struct{ %s.SealBase }\n\n", p.tname, tq["ifc"])
 			case "iface":
 				fmt.Fprintf(tw, "type %s struct{ E%d }\n\ntype E%d interface {\n", p.tname, p.idx, p.idx)
 				for _, tm := range p.tmethods {
@@ -571,14 +591,22 @@ var implAnnRe = regexp.MustCompile(`^//\s*@implements\s+(&)?(?:(\w+)\.)?(\w+)`)
 // oracle: expectations per annotated type of package impl, computed with go/types.
 func c05oracle(dir string) (map[string]c05expect, error) {
 	cfg := &packages.Config{Mode: packages.LoadAllSyntax, Dir: dir}
-	pkgs, err := packages.Load(cfg, "./impl")
+	all, err := packages.Load(cfg, "./...")
 	if err != nil {
 		return nil, err
 	}
-	if len(pkgs) != 1 || len(pkgs[0].Errors) > 0 {
-		return nil, fmt.Errorf("load errors: %v", pkgs[0].Errors)
+	var pk *packages.Package
+	for _, p := range all {
+		if len(p.Errors) > 0 {
+			return nil, fmt.Errorf("load errors in %s: %v", p.PkgPath, p.Errors)
+		}
+		if p.PkgPath == "m5/impl" {
+			pk = p
+		}
 	}
-	pk := pkgs[0]
+	if pk == nil {
+		return nil, fmt.Errorf("package m5/impl not loaded")
+	}
 	out := map[string]c05expect{}
 	for _, f := range pk.Syntax {
 		for _, d := range f.Decls {
